@@ -148,6 +148,7 @@ fn run_inner(ch: &mut Chooser, partial: &mut Option<RunOutcome>) -> RunOutcome {
     let mut hol_sticky = vec![false; n_master + 1];
     let mut ambiguous = vec![false; n_master + 1];
     let mut foreign_block = vec![false; n_master + 1];
+    let mut last_parent: Vec<Option<Pid>> = vec![None; n_master + 1];
     let mut seen_from_parent: Vec<(Tlv, Pid)> = Vec::new();
     let mut emitted_seen = 0usize;
     let mut rx_seen = 0usize;
@@ -403,6 +404,12 @@ fn run_inner(ch: &mut Chooser, partial: &mut Option<RunOutcome>) -> RunOutcome {
                     }
                 }
             }
+            // "from the current parent": if the parent changes while TLVs are queued, whether "current"
+            // means at reception or at emission is a matter of reading - strict comparison is suspended
+            if last_parent[p].map(|lp| lp != parent_now).unwrap_or(false) {
+                ambiguous[p] = true;
+            }
+            last_parent[p] = Some(parent_now);
             // walk the model queue
             let room_after_pt = room;
             let q = &mut queues[p];
